@@ -305,6 +305,18 @@ func (r *resolver) ResolveType(t *parser.Type) (err error) {
 // included IDL or -1 if the enum is defined in the given AST.
 // When such an enum is not found, getEnum returns (nil, -1).
 func getEnum(ast *parser.Thrift, name string) (enum *parser.Enum, includeIndex int32) {
+	return getEnumVisited(ast, name, make(map[string]bool))
+}
+
+// getEnumVisited is getEnum with a record of the typedefs already followed, so that a
+// typedef cycle ends the search instead of recursing forever (the cycle itself is
+// reported later by ResolveTypedefs).
+func getEnumVisited(ast *parser.Thrift, name string, visited map[string]bool) (enum *parser.Enum, includeIndex int32) {
+	key := ast.Filename + "\x00" + name
+	if visited[key] {
+		return nil, -1
+	}
+	visited[key] = true
 	c, exist := ast.Name2Category[name]
 	if !exist {
 		return nil, -1
@@ -321,12 +333,12 @@ func getEnum(ast *parser.Thrift, name string) (enum *parser.Enum, includeIndex i
 			panic(fmt.Errorf("expect %q to be an typedef in %q, not found", name, ast.Filename))
 		} else {
 			if r := x.Type.Reference; r != nil {
-				e, _ := getEnum(ast.Includes[r.Index].Reference, r.Name)
+				e, _ := getEnumVisited(ast.Includes[r.Index].Reference, r.Name, visited)
 				if e != nil {
 					return e, r.Index
 				}
 			}
-			return getEnum(ast, x.Type.Name)
+			return getEnumVisited(ast, x.Type.Name, visited)
 		}
 	}
 	return nil, -1
